@@ -84,11 +84,30 @@ func kindOfSchemaType(t schema.SchemaType) byte {
 	return '?'
 }
 
+// c17HasAnnotationSyntax: a '/', '#' or '*' outside of a string literal ('\/' inside a
+// string is an ordinary JSON escape).
+func c17HasAnnotationSyntax(in []byte) bool {
+	inStr, esc := false, false
+	for _, c := range in {
+		switch {
+		case esc:
+			esc = false
+		case inStr && c == '\\':
+			esc = true
+		case c == '"':
+			inStr = !inStr
+		case !inStr && (c == '/' || c == '#' || c == '*'):
+			return true
+		}
+	}
+	return false
+}
+
 func c17Accept(w *core.W, in []byte, entry string) {
 	w.S.Evaluations++
 	w.S.Traces++
 	w.S.Transitions += int64(len(in)) + 1
-	if strings.ContainsAny(string(in), "/#*") {
+	if c17HasAnnotationSyntax(in) {
 		return // annotation syntax: acceptance is judged by the layout family only
 	}
 	items, want := refEnumParse(in)
@@ -179,7 +198,7 @@ func c17Accept(w *core.W, in []byte, entry string) {
 
 // ---- meaning: enum: @e  ==  enum: [list]
 
-var c17Spellings = []string{`0`, `-0`, `0.0`, `-0.0`, `1`, `1.0`, `1.00`, `10`, `10.0`, `2.5`, `2.50`, `-1.0`, `"1.0"`, `"1"`}
+var c17Spellings = []string{`9223372036854775808`, `18446744073709551616`, `"a\/b"`, `"/"`, `0`, `-0`, `0.0`, `-0.0`, `1`, `1.0`, `1.00`, `10`, `10.0`, `2.5`, `2.50`, `-1.0`, `"1.0"`, `"1"`}
 
 var c17Layouts = []string{"compact", "spaced", "lines", "line-notes", "block-notes", "empty-annotations"}
 
